@@ -9,10 +9,12 @@ ENTRY = dict(
          "HKDF-salted ALPS stream are recomputed with x/crypto and the model must reproduce the spec exactly (suites, extension "
          "order, every parameter). Distinct by (id, seed, weights, serverName, NextProtos); non-trivial when a spec was produced "
          "(helpers: list longer than 1).",
-    trusted_base=["hooks/verif_c09.go accessors (generateRandomizedSpec, cipherSuites rows, helper wrappers)",
+    trusted_base=["hooks/verif_c09.go accessors (generateRandomizedSpec, cipherSuites rows, helper wrappers, go:embed of u_parrots.go for the "
+                  "id.Weights.X / FlipWeightedCoin scan behind the CCoins case)",
                   "x/crypto sha3 + hkdf (stream recomputation in the runner)",
-                  "IEEE-754 float64 laws as premises of the weight theorems (monotone rounding; 0, 1, 2^63, 2^-63 exact); executable rne "
-                  "(Model/Prng.v) validated against Go on every case, overflow to +-Inf modelled explicitly",
+                  "IEEE-754 float64 laws as premises of the weight theorems (monotone rounding; 0, 1, 2^63, 2^-63 exact); the executable rounding "
+                  "rnf of Corr/C09Corr.v (shift-based round-to-nearest-even, same function as Prng.rne) is validated against Go on every case, "
+                  "overflow to +-Inf modelled explicitly",
                   "rendering of ClientHelloSpec extensions into the abstract spec (runner observe())"],
     assumes=["streams long enough / rejection loops end within the fuel (16 redraws): model returns Err 99 otherwise, theorems are about Ok results",
              "weight-1 statements exclude streams with an all-zero 63-bit draw (nz), probability 2^-63 per draw",
